@@ -25,6 +25,10 @@ func profileFor(check, tier, variant string) *CheckDef {
 		if thorough {
 			d.MaxOps = 60
 		}
+	case "C01dup":
+		d.Check = "C01"
+		d.DupProbe = true
+		d.MinOps, d.MaxOps = 4, 12
 	case "C04":
 		d.MinClients, d.MaxClients = 1, 3
 		d.MinOps, d.MaxOps = 6, 20
